@@ -39,10 +39,12 @@ BUDGET_S = {"quick": 240.0, "thorough": 2400.0}
 REQUIRED_COUNTERS = {
     "quick": {"conditioning_values_checked": 2000, "block_updates_checked": 900, "conditional_density_checked": 1500,
               "cache_consistency_checked": 1600, "stored_sweeps_checked": 450, "exact_draw_readoff_checked": 300,
-              "continuation_checked": 30, "returned_samples_checked": 70, "law_statistics_checked": 300},
+              "continuation_checked": 30, "returned_samples_checked": 70, "law_statistics_checked": 300,
+              "tuple_member_updates_checked": 40, "spelling_equivalence_checked": 4},
     "thorough": {"conditioning_values_checked": 30000, "block_updates_checked": 14000, "conditional_density_checked": 24000,
                  "cache_consistency_checked": 25000, "stored_sweeps_checked": 7000, "exact_draw_readoff_checked": 4500,
-                 "continuation_checked": 300, "returned_samples_checked": 700, "law_statistics_checked": 1200},
+                 "continuation_checked": 300, "returned_samples_checked": 700, "law_statistics_checked": 1200,
+                 "tuple_member_updates_checked": 600, "spelling_equivalence_checked": 40},
 }
 P_THRESHOLD = 1e-7
 
@@ -74,6 +76,10 @@ def _menu(driver, family, role, dim, form, law):
     hg = driver == "hg"
     if role == "hyper":
         m = ["Conjugate", "Conjugate", "MH"]
+    elif role == "hyper_prod":     # x ~ N(x0, I/(d1*d2)): Gamma conditional; the new-style Conjugate refuses the two-argument lambda
+        m = ["MH"] if hg else ["Conjugate", "Conjugate", "MH"]
+    elif role == "hyper_sum":      # x ~ N(x0, I/(d1+d2)): not a Gamma conditional
+        m = ["MH"]
     elif role == "hyper_lmrf":
         m = ["ConjugateApprox", "ConjugateApprox", "MH"]
     elif role == "field":          # Posterior with Gaussian prior and linear-Gaussian likelihood
@@ -104,8 +110,8 @@ def _menu(driver, family, role, dim, form, law):
         m = [k for k in m if k not in TRACE_ONLY]
     return m
 
-def _gen_model(rng, driver, law, force_family=None):
-    fam = force_family or rng.choice(["hier", "hier", "hier", "chain", "chain", "scalar3", "multi", "multi"])
+def _gen_model(rng, driver, law, force_family=None, group_bias=False):
+    fam = force_family or rng.choice(["hier", "hier", "hier", "chain", "chain", "scalar3", "multi", "multi", "prod"])
     if fam == "hier":
         prior = rng.choice(["cov", "prec", "gmrf"] if law else ["cov", "prec", "gmrf", "gmrf", "lmrf"])
         c = {"family": "hier", "prior": prior, "lik": rng.choice(["cov", "prec"]), "n": rng.randint(2, 6), "m": rng.randint(2, 7),
@@ -127,6 +133,13 @@ def _gen_model(rng, driver, law, force_family=None):
         roles = {nm: ("chain_last" if nchild[i] == 0 else "chain_inner" if nchild[i] == 1 else "chain_fork") for i, nm in enumerate(names)}
         dims = dict(zip(names, c["dims"]))
         form = c["form"]
+    elif fam == "prod":
+        c = {"family": "prod", "comb": rng.choice(["prod", "prod", "sum"]), "n": rng.randint(1, 5), "m": rng.choice([0, 0, 3, 5]),
+             "shift": rng.choice([0, 1]), "order": rng.randrange(10 ** 6)}
+        hr = "hyper_prod" if c["comb"] == "prod" else "hyper_sum"
+        roles = {"d1": hr, "d2": hr, "x": "field" if c["m"] else "data"}
+        dims = {"d1": 1, "d2": 1, "x": c["n"]}
+        form = None
     elif fam == "multi":
         J = rng.choice([2, 2, 2, 3])
         m0 = rng.randint(2, 6)
@@ -154,12 +167,41 @@ def _gen_model(rng, driver, law, force_family=None):
             kind = "LinearRTO"                                        # the guaranteed multi-likelihood RTO cases of every run
         samplers[nm] = [kind, _sampler_params(kind, "hyper" if role.startswith("hyper") or role == "s3_d" else "field")]
         nss[nm] = rng.choice([1, 1, 2, 3, 4])
+    if group_bias:
+        # make mutually dependent blocks share one sampler specification so that they can be listed under one tuple key
+        by_role = {}
+        for nm, role in roles.items():
+            by_role.setdefault(role, []).append(nm)
+        for role, members in by_role.items():
+            if len(members) > 1 and role in ("hyper_prod", "hyper_sum", "chain_inner", "hyper"):
+                pick = samplers[rng.choice(members)]
+                if all(pick[0] in _menu(driver, fam, role, dims[nm], form, law) for nm in members):
+                    for nm in members:
+                        samplers[nm] = [pick[0], dict(pick[1])]
     c["samplers"] = samplers
     if driver == "hg":
         c["nss"] = nss
         c["nss_given"] = rng.choice(["all", "partial", "all"])
     c["mseed"] = rng.randrange(10 ** 9)
     return c
+
+def _spelling(rng, samplers):
+    """Keys of the legacy sampling_strategy: blocks with one and the same sampler specification are, with probability 0.8,
+    listed together under tuple keys of 2-3 members (member order and key order shuffled, i.e. unrelated to the joint's order)."""
+    groups = {}
+    for nm, spec in samplers.items():
+        groups.setdefault(core.canon(spec), []).append(nm)
+    keys = []
+    for members in groups.values():
+        members = list(members); rng.shuffle(members)
+        while members:
+            if len(members) >= 2 and rng.random() < 0.8:
+                size = 3 if (len(members) >= 3 and rng.random() < 0.5) else 2
+                keys.append(members[:size]); members = members[size:]
+            else:
+                keys.append(members.pop())
+    rng.shuffle(keys)
+    return keys
 
 def cases(tier, seed):
     rng = core.rng_for(seed, PROPERTY, tier, "cases")
@@ -171,28 +213,33 @@ def cases(tier, seed):
         return int(base * 3.2 / (sweeps + 1.2))
     trace, law = [], []
     for i in range(n_hg_trace):
-        fam = ["hier", "chain", "scalar3", "multi", "multi"][i] if i < 5 else None
+        fam = ["hier", "chain", "scalar3", "multi", "multi", "prod", "prod"][i] if i < 7 else None
         c = _gen_model(rng, "hg", False, fam)
+        c["dict_order"] = rng.randrange(10 ** 6)
         c.update({"kind": "hg_trace", "sched": [rng.choice([0, 3, 5, 10]), rng.randint(4, 8), rng.choice([0, 3, 5])] if tier == "quick" else
                   [rng.choice([0, 5, 10, 20]), rng.randint(5, 14), rng.choice([0, 4, 8])], "idx": i})
         trace.append(c)
     for i in range(n_lg_trace):
-        fam = ["hier", "chain", "scalar3", "multi", "multi"][i] if i < 5 else None
-        c = _gen_model(rng, "lg", False, fam)
+        fam = ["hier", "chain", "scalar3", "multi", "multi", "prod", "prod"][i] if i < 7 else None
+        c = _gen_model(rng, "lg", False, fam, group_bias=(i % 2 == 1 or fam == "prod"))
+        c["strategy_keys"] = _spelling(rng, c["samplers"])
+        c["spelling"] = "tuple" if any(isinstance(k, list) for k in c["strategy_keys"]) else "string"
         c.update({"kind": "lg_trace", "sched": [rng.choice([0, 0, 3, 6]), rng.randint(4, 8), rng.choice([0, 3, 5])] if tier == "quick" else
                   [rng.choice([0, 0, 5, 12]), rng.randint(5, 14), rng.choice([0, 4, 8])],
                   "tuple_keys": rng.choice([True, False]), "idx": i})
         trace.append(c)
     for i in range(n_hg_law):
-        fam = ["hier", "chain", "scalar3", "multi", "multi"][i] if i < 5 else None
+        fam = ["hier", "chain", "scalar3", "multi", "multi", "prod", "prod"][i] if i < 7 else None
         c = _gen_model(rng, "hg", True, fam)
         sw = rng.choice([1, 2, 3, 5])
         Kc = max(300, _K(K_hg, sw) // (2 if "NUTS" in [v[0] for v in c["samplers"].values()] else 1))
         c.update({"kind": "hg_law", "K": Kc, "sweeps": sw, "idx": i})
         law.append(c)
     for i in range(n_lg_law):
-        fam = ["hier", "chain", "scalar3", "multi", "multi"][i] if i < 5 else None
-        c = _gen_model(rng, "lg", True, fam)
+        fam = ["hier", "chain", "scalar3", "multi", "multi", "prod", "prod"][i] if i < 7 else None
+        c = _gen_model(rng, "lg", True, fam, group_bias=(i % 2 == 1 or fam == "prod"))
+        c["strategy_keys"] = _spelling(rng, c["samplers"])
+        c["spelling"] = "tuple" if any(isinstance(k, list) for k in c["strategy_keys"]) else "string"
         sw = rng.choice([1, 2, 3, 5])
         c.update({"kind": "lg_law", "K": _K(K_lg, sw), "sweeps": sw, "idx": i})
         law.append(c)
@@ -213,7 +260,7 @@ def crash_config(case):
 
 def _cfg(case, **extra):
     c = {"driver": "HybridGibbs" if case["kind"].startswith("hg") else "Gibbs", "family": case["family"]}
-    for k in ("prior", "lik", "data", "form", "shape", "lengths"):
+    for k in ("prior", "lik", "data", "form", "shape", "lengths", "comb", "spelling"):
         if k in case:
             c[k] = case[k]
     c.update(extra)
@@ -287,6 +334,29 @@ def build_model(case):
             dists.append(D.Gaussian(mean, cov=svars[j], geometry=dims[j], name=names[j]))
         J = D.JointDistribution(*dists)
         return ref, (lambda data=None: J), None
+    if fam == "prod":
+        n, m = case["n"], case["m"]
+        x0 = rs.standard_normal(n) if case.get("shift") else np.zeros(n)
+        a = [float(rs.uniform(2.5, 5.0)) for _ in range(2)]; b = [float(rs.uniform(0.5, 2.5)) for _ in range(2)]
+        A = (rs.standard_normal((m, n)) / math.sqrt(n) + np.eye(m, n)) if m else None
+        s2 = float(rs.uniform(0.3, 1.5))
+        y_obs = R.Prod(n, x0, a, b, case["comb"], A=A, s2=s2).draw(rs)["y"] if m else None
+        ref = R.Prod(n, x0, a, b, case["comb"], A=A, s2=s2, y_obs=y_obs)
+        dists = {"d1": D.Gamma(a[0], b[0], name="d1"), "d2": D.Gamma(a[1], b[1], name="d2")}
+        if case["comb"] == "prod":
+            dists["x"] = D.Gaussian(x0, cov=lambda d1, d2: 1.0 / (d1 * d2), name="x")
+        else:
+            dists["x"] = D.Gaussian(x0, cov=lambda d1, d2: 1.0 / (d1 + d2), name="x")
+        if m:
+            dists["y"] = D.Gaussian(cuqi.model.LinearModel(A), cov=s2, name="y")
+        order = sorted(dists)
+        core.rng_for("order", case["order"]).shuffle(order)
+        Jp = D.JointDistribution(*[dists[k] for k in order])
+        def target(data=None):
+            if not m:
+                return Jp
+            return Jp(y=y_obs if data is None else data["y"])
+        return ref, target, y_obs
     if fam == "multi":
         n, ms = case["n"], case["ms"]
         J = len(ms)
@@ -605,13 +675,16 @@ def run_hg_trace(case, ctx):
         if k in buffers:
             return buffers[k][0][1::2]
         return float(init[k][0]) if scalar_init[k] else init[k]
-    kind_, strategy = core.outcome(lambda: {k: make_exp_sampler(v[0], v[1], _ip(k)) for k, v in case["samplers"].items()})
+    # spelling axis of HybridGibbs: the order of the sampling_strategy / num_sampling_steps dicts is unrelated to the joint's order
+    dict_order = sorted(case["samplers"])
+    core.rng_for("dict_order", case.get("dict_order", 0)).shuffle(dict_order)
+    kind_, strategy = core.outcome(lambda: {k: make_exp_sampler(case["samplers"][k][0], case["samplers"][k][1], _ip(k)) for k in dict_order})
     if kind_ != "value":
         ctx.refused("sampler construction", strategy); ctx.count("refused_configurations"); return
     nss_cfg = dict(case["nss"])
     if case.get("nss_given") == "partial":
         nss_cfg.pop(sorted(nss_cfg)[0])
-    nss_arg = dict(nss_cfg)
+    nss_arg = {k: nss_cfg[k] for k in reversed(dict_order) if k in nss_cfg}
     nss_eff = {k: nss_cfg.get(k, 1) for k in names_ref}
 
     raw = []                                  # every JointDistribution.__call__ seen by the contract wrapper
@@ -630,6 +703,9 @@ def run_hg_trace(case, ctx):
         names = list(G.par_names)
         if sorted(names) != sorted(names_ref):
             ctx.violation("par_names", _cfg(case), f"{names} vs blocks {names_ref}"); return
+        ctx.count("sweep_order_is_joint_order_checked")
+        if names != list(target.get_parameter_names()):
+            ctx.violation("par_names", _cfg(case), f"sweep order {names} is not the joint's parameter order {target.get_parameter_names()} (strategy dict order {dict_order})")
         # initial state and initial conditioning
         init_obs = {k: _arr(G.current_samples[k]) for k in names}
         for k in names:
@@ -761,16 +837,41 @@ def run_hg_trace(case, ctx):
 
 # =============================================================================== legacy Gibbs: trace case
 
+def _block_of(target):
+    """Name of the block a conditional target belongs to (used by the callable given for a tuple key)."""
+    pr = getattr(target, "prior", None)
+    if pr is not None and getattr(pr, "name", None) is not None:
+        return pr.name
+    nm = getattr(target, "name", None)
+    return nm if nm is not None else target.get_parameter_names()[0]
+
+def legacy_strategy(keys, factory_of, direct=False):
+    """sampling_strategy of the legacy Gibbs in the given spelling: string keys and tuple keys (a list in the descriptor).
+    factory_of(block) -> callable(target) -> sampler.  The callable given for a tuple key serves all its members."""
+    strategy = {}
+    for key in keys:
+        if isinstance(key, (list, tuple)):
+            if direct:      # documented spelling: the sampler class (or one factory) itself is the value of the tuple key
+                strategy[tuple(key)] = factory_of(key[0])
+                continue
+            shared = {m: factory_of(m) for m in key}
+            strategy[tuple(key)] = (lambda target, shared=shared: shared[_block_of(target)](target))
+        else:
+            strategy[key] = factory_of(key)
+    return strategy
+
 def run_lg_trace(case, ctx):
     import cuqi
     from cuqi.distribution import JointDistribution
     ref, target_fn, _ = build_model(case)
     rs = core.np_rng(ctx.seed, PROPERTY, core.canon(case))
-    np.random.seed(rs.randint(2 ** 31 - 1))
+    stream_seed = int(rs.randint(2 ** 31 - 1))
     kinds = {k: v[0] for k, v in case["samplers"].items()}
     raw = []
-    probe_rs = core.np_rng("probe", core.canon(case))
-    state = {"sweep": -1}
+    state = {"sweep": -1, "probe_rs": None}
+    keys = case.get("strategy_keys") or list(case["samplers"])
+    later_members = set(m for k in keys if isinstance(k, list) for m in k[1:])
+    grouped = set(m for k in keys if isinstance(k, list) for m in k)
 
     def recording_factory(block):
         kind, params = case["samplers"][block]
@@ -780,7 +881,7 @@ def run_lg_trace(case, ctx):
             class Proxy:
                 def step(self_p, x=None):
                     ev = {"k": "step", "block": block, "before": _arr(x), "target": target}
-                    p1 = ev["before"]; p2 = _probe(p1, block in ref.positive, probe_rs)
+                    p1 = ev["before"]; p2 = _probe(p1, block in ref.positive, state["probe_rs"])
                     k_, val = core.outcome(_logd_diff, target, p1, p2)
                     ev["probe"] = (p1, p2, val[0], val[1]) if k_ == "value" else None
                     zero_noise = kind in ("LinearRTO", "DirectLike") and state["sweep"] % 3 == 2
@@ -800,101 +901,129 @@ def run_lg_trace(case, ctx):
             return Proxy()
         return factory
 
-    strategy = {}
-    if case.get("tuple_keys") and kinds.get("d") == kinds.get("l") == "Conjugate":
-        # documented tuple form: one (class) entry for two blocks; observation then goes through a subclass-free wrapper
-        shared = {"d": recording_factory("d"), "l": recording_factory("l")}
-        class Dispatch:
-            """callable given for the tuple key; the legacy Gibbs splits the tuple and calls it per block"""
-            def __call__(self, target):
-                blk = target.prior.name if hasattr(target, "prior") else None
-                return shared[blk](target)
-        strategy[("d", "l")] = Dispatch()
-        rest = [k for k in case["samplers"] if k not in ("d", "l")]
-    else:
-        rest = list(case["samplers"])
-    for k in rest:
-        strategy[k] = recording_factory(k)
+    init = initial_state(ref, case, rs)
+    Nb, N1, N2 = case["sched"]
 
-    clog = contracts.ContractLog()
-    def post(self, args, kwargs, result, snap):
-        raw.append({"k": "cond", "self": self, "kwargs": snap, "result": result})
-        return True
-    with contracts.ensure(JointDistribution, "__call__", post, clog, snapshot=_call_snapshot):
-        k_, G = core.outcome(cuqi.sampler.Gibbs, target_fn(), strategy)
-        if k_ != "value":
-            ctx.refused("Gibbs construction", G); ctx.count("refused_configurations"); return
-        names = list(G.par_names)
-        # the legacy sampler starts from init_point attributes or ones; put an interior start on the densities it reads
-        init = initial_state(ref, case, rs)
-        for k in names:
-            try:
-                G.target.get_density(k).init_point = np.array(init[k], copy=True)
-            except Exception:  # noqa
-                init[k] = np.ones(ref.dims[k])
-        nss = {k: 1 for k in names}
-        checker = SweepChecker(ctx, case, ref, names, nss, kinds, init)
-        orig_step = G.step
-        pending = {"phase": "warmup", "first": None}
-        def gstep(current_samples):
-            state["sweep"] += 1
-            if pending["first"] is None:
-                pending["first"] = {k: _arr(current_samples[k]) for k in names}
-            del raw[:]
-            out = orig_step(current_samples)
-            evs = [e for e in raw if e["k"] == "step" or (e["self"] is G.target)]
-            checker.check_sweep(state["sweep"], pending["phase"], evs, {k: _arr(out[k]) for k in names})
-            del raw[:]
-            return out
-        G.step = gstep
-        Nb, N1, N2 = case["sched"]
-        done_Ns, done_Nb = 0, 0
-        for ci, (Ns, Nb_) in enumerate([(N1, Nb), (N2, 0)]):
-            if Ns == 0:
-                continue
-            pending["first"] = None
-            pending["phase"] = "call%d" % ci
-            n_hist = len(checker.history)
-            expected_start = {k: v.copy() for k, v in checker.cur.items()}
-            k_, out = core.outcome(G.sample, Ns, Nb_)
-            if k_ == "refused" and checker.sweeps_checked == 0:
-                # the legacy driver builds its block samplers lazily: an incompatible assignment is refused in the first sweep
-                ctx.refused("sample mid-run", out); ctx.count("refused_mid_run"); ctx.note("mid_run_refusal", repr(out)); break
+    def drive(spelling_keys, judge):
+        """One complete history (construction, sample(N1, Nb), sample(N2)) under the library random stream `stream_seed`.
+        judge=True: every sweep goes through the sequential-scan checker; returns the arrays returned by the calls."""
+        state["sweep"] = -1
+        state["probe_rs"] = core.np_rng("probe", core.canon(case))
+        del raw[:]
+        returned = []
+        clog = contracts.ContractLog()
+        def post(self, args, kwargs, result, snap):
+            raw.append({"k": "cond", "self": self, "kwargs": snap, "result": result})
+            return True
+        strategy = legacy_strategy(spelling_keys, recording_factory)
+        with contracts.ensure(JointDistribution, "__call__", post, clog, snapshot=_call_snapshot):
+            k_, G = core.outcome(cuqi.sampler.Gibbs, target_fn(), strategy)
             if k_ != "value":
-                ctx.violation("failure_mid_run", _cfg(case, exc=type(out).__name__, call=ci, samplers="/".join(kinds[k] for k in names)),
-                              f"sample({Ns},{Nb_}) raised {out!r} after {checker.sweeps_checked} checked sweeps; blocks {kinds}"); break
-            if len(checker.history) - n_hist != Ns + Nb_:
-                ctx.violation("sweep_count", _cfg(case), f"sample({Ns},{Nb_}) performed {len(checker.history) - n_hist} sweeps")
-            # continuation / start: the dict handed to the first sweep of this call
-            if pending["first"] is not None:
-                ctx.count("continuation_checked")
-                for k in names:
-                    if not np.array_equal(pending["first"][k], expected_start[k]):
-                        ctx.violation("continuation_start", _cfg(case, call=ci, sampler=kinds[k]),
-                                      f"call {ci}: sweep started from {k}={pending['first'][k].tolist()}, last stored/initial value {expected_start[k].tolist()}")
-            # returned arrays: all sampling sweeps so far (warm-up sweeps live in samples_warmup)
-            hist = checker.history
-            samp_hist = hist[Nb:] if Nb else hist
+                if judge:
+                    ctx.refused("Gibbs construction", G); ctx.count("refused_configurations")
+                return None, None
+            names = list(G.par_names)
+            # the legacy sampler starts from init_point attributes or ones; put an interior start on the densities it reads
+            start = {}
             for k in names:
-                ctx.count("returned_samples_checked")
-                arr = np.asarray(out[k].samples)
-                want = np.array([h[k] for h in samp_hist]).T
-                ctx.count("stored_sweeps_checked", want.shape[1] if want.ndim == 2 else 0)
-                if arr.shape != want.shape or not np.array_equal(arr, want):
-                    bad = "shape" if arr.shape != want.shape else str(np.argwhere(~np.all(arr == want, axis=0)).ravel()[:5].tolist())
-                    ctx.violation("stored_sample_mismatch", _cfg(case, sampler=kinds[k], call=ci),
-                                  f"call {ci}: returned samples of {k} {arr.shape} differ from the values after each sweep {want.shape} at columns {bad}")
-                if Nb and ci == 0:
-                    w = np.asarray(G.samples_warmup[k]); wwant = np.array([h[k] for h in hist[:Nb]]).T
-                    if w.shape != wwant.shape or not np.array_equal(w, wwant):
-                        ctx.violation("stored_sample_mismatch", _cfg(case, sampler=kinds[k], call=ci, part="warmup"),
-                                      f"warm-up samples of {k} differ from the values after each warm-up sweep")
-    ctx.count("contract_evaluations", clog.evaluations.get("JointDistribution.__call__", 0))
+                try:
+                    G.target.get_density(k).init_point = np.array(init[k], copy=True)
+                    start[k] = init[k]
+                except Exception:  # noqa
+                    start[k] = np.ones(ref.dims[k])
+            checker = SweepChecker(ctx, case, ref, names, {k: 1 for k in names}, kinds, start) if judge else None
+            orig_step = G.step
+            pending = {"phase": "warmup", "first": None}
+            def gstep(current_samples):
+                state["sweep"] += 1
+                if pending["first"] is None:
+                    pending["first"] = {k: _arr(current_samples[k]) for k in names}
+                del raw[:]
+                out = orig_step(current_samples)
+                if judge:
+                    evs = [e for e in raw if e["k"] == "step" or (e["self"] is G.target)]
+                    checker.check_sweep(state["sweep"], pending["phase"], evs, {k: _arr(out[k]) for k in names})
+                    for e in evs:                  # updates of later members of a tuple key (the spelling axis)
+                        if e["k"] == "step" and e["block"] in later_members:
+                            ctx.count("tuple_member_updates_checked")
+                        elif e["k"] == "step" and e["block"] in grouped:
+                            ctx.count("tuple_first_member_updates_checked")
+                del raw[:]
+                return out
+            G.step = gstep
+            np.random.seed(stream_seed)
+            for ci, (Ns, Nb_) in enumerate([(N1, Nb), (N2, 0)]):
+                if Ns == 0:
+                    continue
+                pending["first"] = None
+                pending["phase"] = "call%d" % ci
+                n_hist = len(checker.history) if judge else 0
+                expected_start = {k: v.copy() for k, v in checker.cur.items()} if judge else None
+                k_, out = core.outcome(G.sample, Ns, Nb_)
+                if not judge:
+                    if k_ != "value":
+                        return None, None
+                    returned.append({k: np.array(out[k].samples, copy=True) for k in names})
+                    continue
+                if k_ == "refused" and checker.sweeps_checked == 0:
+                    # the legacy driver builds its block samplers lazily: an incompatible assignment is refused in the first sweep
+                    ctx.refused("sample mid-run", out); ctx.count("refused_mid_run"); ctx.note("mid_run_refusal", repr(out)); return None, checker
+                if k_ != "value":
+                    ctx.violation("failure_mid_run", _cfg(case, exc=type(out).__name__, call=ci, samplers="/".join(kinds[k] for k in names)),
+                                  f"sample({Ns},{Nb_}) raised {out!r} after {checker.sweeps_checked} checked sweeps; blocks {kinds}"); return None, checker
+                returned.append({k: np.array(out[k].samples, copy=True) for k in names})
+                if len(checker.history) - n_hist != Ns + Nb_:
+                    ctx.violation("sweep_count", _cfg(case), f"sample({Ns},{Nb_}) performed {len(checker.history) - n_hist} sweeps")
+                # continuation / start: the dict handed to the first sweep of this call
+                if pending["first"] is not None:
+                    ctx.count("continuation_checked")
+                    for k in names:
+                        if not np.array_equal(pending["first"][k], expected_start[k]):
+                            ctx.violation("continuation_start", _cfg(case, call=ci, sampler=kinds[k]),
+                                          f"call {ci}: sweep started from {k}={pending['first'][k].tolist()}, last stored/initial value {expected_start[k].tolist()}")
+                # returned arrays: all sampling sweeps so far (warm-up sweeps live in samples_warmup)
+                hist = checker.history
+                samp_hist = hist[Nb:] if Nb else hist
+                for k in names:
+                    ctx.count("returned_samples_checked")
+                    arr = np.asarray(out[k].samples)
+                    want = np.array([h[k] for h in samp_hist]).T
+                    ctx.count("stored_sweeps_checked", want.shape[1] if want.ndim == 2 else 0)
+                    if arr.shape != want.shape or not np.array_equal(arr, want):
+                        bad = "shape" if arr.shape != want.shape else str(np.argwhere(~np.all(arr == want, axis=0)).ravel()[:5].tolist())
+                        ctx.violation("stored_sample_mismatch", _cfg(case, sampler=kinds[k], call=ci),
+                                      f"call {ci}: returned samples of {k} {arr.shape} differ from the values after each sweep {want.shape} at columns {bad}")
+                    if Nb and ci == 0:
+                        w = np.asarray(G.samples_warmup[k]); wwant = np.array([h[k] for h in hist[:Nb]]).T
+                        if w.shape != wwant.shape or not np.array_equal(w, wwant):
+                            ctx.violation("stored_sample_mismatch", _cfg(case, sampler=kinds[k], call=ci, part="warmup"),
+                                          f"warm-up samples of {k} differ from the values after each warm-up sweep")
+        if judge:
+            ctx.count("contract_evaluations", clog.evaluations.get("JointDistribution.__call__", 0))
+        return returned, checker
+
+    returned, checker = drive(keys, True)
+    if checker is None:
+        return
+    # spelling axis: the same strategy written with one string key per block must give the identical chain under the same stream
+    if returned and grouped and len(returned) == sum(1 for n_ in (N1, N2) if n_):
+        plain, _ = drive(sorted(case["samplers"]), False)
+        if plain is not None and len(plain) == len(returned):
+            ctx.count("spelling_equivalence_checked")
+            for ci, (a, b) in enumerate(zip(returned, plain)):
+                for k in a:
+                    if a[k].shape != b[k].shape or not np.array_equal(a[k], b[k]):
+                        col = "shape" if a[k].shape != b[k].shape else int(np.argwhere(~np.all(a[k] == b[k], axis=0)).ravel()[0])
+                        ctx.violation("tuple_key_changes_chain", _cfg(case, sampler=kinds[k], member="later" if k in later_members else "first" if k in grouped else "other"),
+                                      f"strategy keys {keys}: samples of {k} returned by call {ci} differ from the run with one string key per block "
+                                      f"under the same random stream (first differing column {col})")
+                        break
     ctx.note("blocks", kinds)
+    ctx.note("strategy_keys", keys)
     ctx.note("sweeps_checked", checker.sweeps_checked)
     ctx.note("max_normalised_discrepancies", checker.max_err)
     if checker.sweeps_checked >= 2:
-        ctx.nontrivial("lg_trace:" + case["family"] + ":" + "/".join(sorted(set(kinds.values()))))
+        ctx.nontrivial("lg_trace:" + case["family"] + ":" + case.get("spelling", "string") + ":" + "/".join(sorted(set(kinds.values()))))
 
 # =============================================================================== law cases (second line)
 
@@ -907,9 +1036,10 @@ def _law_replicates(case, ctx, K, rs):
     data_names = ["y"] if (case["family"] == "hier" and case["data"] == "observed") else list(getattr(ref, "data_names", []))
     geweke = bool(data_names)      # data observed: draw (parameters, data) jointly, condition on that data, sweep, test the joint law
     states, failures = [], 0
+    lg_keys = case.get("strategy_keys") or list(case["samplers"])
     G_legacy = None
     if not hg and not geweke:
-        G_legacy = cuqi.sampler.Gibbs(target_fn(), {k: legacy_factory(v[0], v[1]) for k, v in case["samplers"].items()})
+        G_legacy = cuqi.sampler.Gibbs(target_fn(), legacy_strategy(lg_keys, lambda b: legacy_factory(*case["samplers"][b]), direct=True))
     for r in range(K):
         v = ref.draw(rs)
         start = {k: _arr(v[k]) for k in ref.names}
@@ -925,7 +1055,7 @@ def _law_replicates(case, ctx, K, rs):
                     ctx.violation("stored_sample_mismatch", _cfg(case, phase="law"), "last stored sample differs from current_samples")
             else:
                 G = G_legacy if G_legacy is not None else cuqi.sampler.Gibbs(
-                    target, {k: legacy_factory(s[0], s[1]) for k, s in case["samplers"].items()})
+                    target, legacy_strategy(lg_keys, lambda b: legacy_factory(*case["samplers"][b]), direct=True))
                 cur = {k: start[k].copy() for k in ref.names}
                 for _ in range(sweeps):
                     cur = G.step(cur)
